@@ -83,5 +83,22 @@ Spec == Init /\ [][Next]_r
 (* the "therefore" clause of C09 *)
 LiteralNotBeaten == \A w \in Words : Matches(r, w) => Complexity(r) <= 2 * ByteLen(w)
 
-Emit == PrintT(<<"AST", ToJson([r |-> r, prio |-> Complexity(r)])>>)
+(* RegexAgree: the textbook meaning of the pattern, as the longest non-empty prefix of every word of at *)
+(* most 3 characters that it matches (0 = none).  The harness compares it with what the real lexer does  *)
+(* on those words, which cross-checks the component every other specification trusts (regex-syntax /      *)
+(* regex-automata as the meaning of a pattern) on the enumerated fragment.                                *)
+RECURSIVE HasLookR(_)
+HasLookR(x) == CASE T(x) \in {"cat", "alt"} -> HasLookR(x[2]) \/ HasLookR(x[3])
+                 [] T(x) = "rep" -> HasLookR(x[2])
+                 [] T(x) = "look" -> TRUE
+                 [] OTHER -> FALSE
+WordSeq == LET S1 == {<<c>> : c \in Chars}
+               S2 == {<<c1, c2>> : c1 \in Chars, c2 \in Chars}
+               S3 == {<<c1, c2, c3>> : c1 \in Chars, c2 \in Chars, c3 \in Chars}
+           IN S1 \cup S2 \cup S3
+LongestPrefix(x, w) == LET K == {k \in 1..Len(w) : Matches(x, SubSeq(w, 1, k))} IN
+                       IF K = {} THEN 0 ELSE CHOOSE k \in K : \A j \in K : j <= k
+Agree(x) == IF HasLookR(x) THEN <<>> ELSE {<<w, LongestPrefix(x, w)>> : w \in WordSeq}
+
+Emit == PrintT(<<"AST", ToJson([r |-> r, prio |-> Complexity(r), nullable |-> Matches(r, <<>>), lp |-> Agree(r)])>>)
 =============================================================================
